@@ -4,6 +4,27 @@ _SUFFIX = (' Decides the structural necessary condition(s) named, on every path 
            'current source; does not decide the run-time behaviour itself.')
 
 CLAIMED = {
+    'C12': {
+        'text': 'Effect analysis R12.1-R12.5 over every module-level mutable object (discovered, not listed): no explicit '
+                'write and no implicit write (lookup on an auto-inserting table that has a key-sensitive reader) is '
+                'reachable in the call graph from diff/merge/patch API or any tornado handler; function-attribute flags '
+                'are reset in finally; lru_cache functions read only their key; reset helper shape; configuration API '
+                'unreachable from handlers except one named cached exemption. This decides history-independence for the '
+                'enumerated state for ALL histories at once.' + _SUFFIX,
+        'note': 'Trusted: call-graph over-approximation (unknown receivers dispatch to every same-named package method; '
+                'registry/parameter flow fixpoint); state inside third-party libraries not analysed.',
+        'technique': 'static analysis: interprocedural effect analysis (global writes/readers) over a resolved call graph',
+    },
+    'C18': {
+        'text': 'Sibling/table analysis R18.1-R18.5 of the four enable/disable pairs: every git-config key written is own, '
+                'a no-prompt default, or a shared selector under the set_default guard (CFG branch dominance); disable '
+                'unsets a shared key only after reading that key and comparing with nbdime (def-use origin); section '
+                'removed == section registered; attributes file: read -> marker test -> append ordering, mode a, one line, '
+                'marker/driver agreement; config-git runs all four.' + _SUFFIX,
+        'note': 'Trusted: git config semantics for single-valued keys; argument vectors are string literals (a non-literal '
+                'key is itself reported). Real git is not executed by the check.',
+        'technique': 'static analysis: CFG guard dominance + literal argv table comparison across sibling functions',
+    },
     'C17': {
         'text': 'Static rules R17.1-R17.4: every os.chdir is paired with a finally-restore of a value read from '
                 'os.getcwd() before the change (origin query + CFG dominance); only-notebook filter, symmetric '
